@@ -182,6 +182,23 @@ CHECKS = {
    note="Trusted: vc/fstc, the caseless containers' contracts (C17), the codec utf-8-sig, the syntactic scope of the taint scan (the loop, "
         "not callees). 'other': the tree-level conclusion composes line-level proofs with a bounded stand-in.",
    technique="contract-based deductive verification: fstc equivalence of the real line splitter under LF / arbitrary refolding / blank lines, static case-insensitivity obligation on the parse loop; bounded metamorphic stand-in"),
+ "C02": dict(
+   category="other", design_ref="DESIGN.md section 8 C02",
+   text="Tables (fin, complete): every RFC 5545 property name is mapped (TypesFactory.types_map / registrations read from the AST) to a "
+        "class that decodes the RFC's value type (spec/rfc5545_properties.json), and every permitted alternative value type is announced "
+        "by VALUE (a lemma over the constructor contracts). pyvc on the real bodies: vDDDTypes.__init__ (ValueError iff not a date/time "
+        "value; whole params view = VALUE by kind + TZID of a zoned non-UTC value, periods by their start - taken from the property "
+        "statement), vDDDLists.__init__ with an inductive loop invariant chosen from templates (any length: dts[j] = vDDDTypes(seq[j]); "
+        "common VALUE; TZID iff some element is zoned; every zoned element carries its own TZID under the one-zone precondition - without it "
+        "refuted: known finding C02-F1), vPeriod.__init__ (only ValueError, VALUE=PERIOD, TZID of a non-UTC start, explicit end in the "
+        "start's zone), tzid_from_dt, Component._encode (typed values kept, class by property name, TRIGGER date-time tagged, "
+        "parameters merged step by step), Component.add (UTC forcing; stored values = old ++ new in order, lists as z3 sequences; "
+        "frame), property setters (stored parameters derive from the new value only). Shape refutations count only after the same "
+        "contract fails on the real objects. The API grid (names x kinds x parameters x nesting, both providers) is a labelled bounded stand-in.",
+   note="Trusted: pyvc + z3, the induction meta-rule for the loop invariant, Parameters(mapping) as a fold of __setitem__ (cross-checked), "
+        "tzid_from_tzinfo returning None or a non-empty str, CPython date arithmetic failure modes, the RFC transcription. 'other': "
+        "carrying the contracts through serialiser and parser to equal decoded values composes C03/C05/C06/C08 and is exercised by the grid.",
+   technique="contract-based deductive verification: pyvc VCs from the real constructors / _encode / add (z3, loop invariant templates, z3 sequences) + finite table lemmas; bounded API grid stand-in"),
 }
 NA_REASON = "check not built yet (build round in progress; DESIGN.md section 8 describes the planned contracts)"
 
